@@ -92,6 +92,9 @@ func VH_C19_RateLimit() {
 	conf := vhConf(config.StoreMem)
 	limit := vh.Concrete(vh.Choice("limit", 4)) // 0 = no limit
 	conf.API.RateLimit = limit
+	// the warnings setting is independent of the rate limit: every response carries them
+	nWarn := vh.Choice("warnings", 2)
+	conf.API.Warnings = []string{"w1", "w2"}[:nWarn*2]
 	s := New(conf)
 	type win struct {
 		first int64
@@ -128,6 +131,7 @@ func VH_C19_RateLimit() {
 		mark := len(vclock.Log)
 		rec := vhttp.Serve(s, req)
 		vh.Assert(!rec.Panicked, "C19.nopanic")
+		vh.Assert(len(rec.HeaderMap.Values("Warning")) == nWarn*2 && rec.HeaderMap.Get("Docker-Distribution-API-Version") == "registry/2.0", "C19.warning-or-version-header-depends-on-rate-limit")
 		now := vclock.LastNs()
 		if len(vclock.Log) > mark {
 			now = vclock.Log[mark]
